@@ -341,7 +341,13 @@ def gen_cases(seed, tier):
         # (likewise upstream: 16 fragments of a Base32 name must carry a 1250-byte compressed packet: -M >= ~150)
         add('options', q=x, a=x, mask=rng.choice(MASKS), limit=rng.choice(lims), edns=rng.randrange(2), maxlen=rng.choice([180, 200, 230]))
         # (a packet needs <= 16 fragments: -m below ~80 cannot carry the 1240-byte test packets whatever the path)
-        add('options', q=x, a=x, mask=rng.choice(MASKS), limit=0, edns=1, autofrag=0, fragsize=rng.choice([100, 130, 200]))
+        # ... and a given -m must be a size the record type the path leads to can carry at all: one host name (CNAME / A answers) holds
+        # about 180 bytes in Base64 and 150 in Base32, so 200 is only given where a multi-name or binary type is served
+        mk = rng.choice(MASKS)
+        fs = rng.choice([100, 130, 200])
+        if mk & 0x1f == 0 and fs > 130:
+            fs = 130
+        add('options', q=x, a=x, mask=mk, limit=0, edns=1, autofrag=0, fragsize=fs)
     return cases, dict(stats)
 
 
